@@ -7,6 +7,21 @@ In-process correspondence (real function vs Lean model, result must be one of th
   cuts    whatshap.polyphase.algorithm.compute_cut_positions     <-> c15.cuts    (exact, IEEE doubles on both sides)
   psi     whatshap.cli.polyphase.phase_single_individual (solver stubbed by a generated PolyphaseResult)
                                                                   <-> c15.components (final dict + phased positions)
+  glue    the steps of run_polyphase between the variant table and solve_polyphase_instance, with the real helpers
+          (remove_rows_by_index, ReadSet.subset, subset_rows_by_position, create_genotype_list, AlleleMatrix)
+          on tables / read sets built through the real API                <-> c15.glue, c15.blockstarts
+  vcfio   VcfReader / PhasedVcfWriter.write on generated records (duplicates, >= 16 ALTs, mixed SNV/indel ALTs, no ALT,
+          unsorted, wrong ploidy) with a generated phase and component dictionary <-> c15.readtable, c15.write
+  agg / threads / assign   aggregate_results, find_breakpoints, get_optimal_assignments <-> c15.aggregate, c15.integrate,
+          c15.assignments
+  pipe    the REAL run_polyphase in this process (threads=1) on every CLI case, with recorders (class Recorder) around
+          PhasedInputReader.read, solve_polyphase_instance (also the recursive calls for sub-instances),
+          compute_block_starts, phase_single_block, force_genotypes, run_threading, find_subinstances,
+          integrate_sub_results, get_optimal_assignments, permute_blocks, aggregate_results, compute_cut_positions,
+          phase_single_individual; every recorded stage is compared with the model (c15.readtable, c15.glue,
+          c15.blockstarts incl. the genotype slices by object identity, c15.singleton, c15.force, c15.writeback,
+          c15.integrate, c15.assignments, c15.permute, c15.aggregate, c15.cuts, c15.components) and the written VCF
+          with the writer model (c15.write).
 Property oracle (Python, independent of the model) on every in-process result and on the output VCF of real
 `whatshap polyphase` runs on generated polyploid data.
 """
@@ -18,18 +33,26 @@ RULE = ("in-process: generated columns/genotypes/cluster depths (force_genotypes
         "breakpoints and permutations (permute_blocks), breakpoint lists with confidences for all six sensitivities "
         "(compute_cut_positions), accessible positions + stubbed solver result (phase_single_individual); a case is "
         "non-trivial if a permutation stage is entered (force), some block permutation is not the identity (permute), "
-        "there are >= 2 breakpoints with non-zero confidence (cuts), there are >= 2 cuts (psi). CLI: a polyphase run is "
+        "there are >= 2 breakpoints with non-zero confidence (cuts), there are >= 2 cuts (psi), the solver is reached "
+        "and some heterozygous variant is in no column (glue), a record is skipped by the reader while some call is "
+        "phased (vcfio), >= 2 blocks (agg), >= 1 breakpoint (threads), >= 2 breakpoints (assign). CLI: a polyphase run is "
         "non-trivial if it phases >= 2 variants; distinct = distinct serialised case")
 MANIFEST = dict(
-    text="Lean 4 theorems about a hand-written model of the enforcing stages of whatshap polyphase (force_genotypes per "
-         "column, permute_blocks, compute_cut_positions + component dictionary) with the clustering/threading heuristic "
-         "universally quantified: every chosen permutation yields exactly the genotype's alleles, reordering preserves "
-         "every column's multiset, components are disjoint intervals named by their first position; tied to the working "
+    text="Lean 4 theorems about a hand-written model of whatshap polyphase around its heuristics: the VCF reader's row "
+         "selection, the glue of run_polyphase up to the solver call (alignment of the genotype list with the allele-matrix "
+         "columns for every input), what solve_polyphase_instance does with the genotype list (block slices, one-variant "
+         "blocks, force_genotypes, recursive sub-instance write-back, permute_blocks, get_optimal_assignments), where "
+         "breakpoints come from (find_breakpoints, sub-instances, sort, join, aggregate_results), compute_cut_positions + "
+         "component dictionary, and the VCF writer — with the clustering/threading/likelihood heuristics universally "
+         "quantified: every phased genotype in the output lists exactly the alleles of the input genotype, only "
+         "heterozygous non-skipped rows are phased, components are disjoint intervals named by their first position "
+         "(end to end from the block results); tied to the working "
          "tree by in-process differential runs of those functions and by an independent oracle on the output VCF of real "
          "`whatshap polyphase` runs on generated polyploid data (ploidy 2-6, multi-allelic, collapsed haplotypes, uneven "
          "coverage, all block-cut sensitivities, --use-prephasing)",
     design_ref="DESIGN.md §5 C15",
-    note="proof covers the enforcing stages only; the end-to-end claim is differential (bounded by the generator). The "
+    note="the end-to-end theorems quantify over every column the modelled stages can produce from arbitrary heuristic "
+         "output (not over the heuristics' code); the BAM reader is an input (its contract is checked on every run). The "
          "code's -inf fallback in force_genotypes (F8) is modelled as an admissible outcome and proved to violate the "
          "genotype whenever taken; the check reports it (reachable through the CLI with >= 249 reads per cluster and a "
          "genotype the reads contradict). Trusted: Lean kernel, axioms ⊆ {propext, Classical.choice, Quot.sound}, the "
@@ -42,6 +65,10 @@ ASSUMPTIONS = [
     "block_cut_sensitivity in 0..5 (validated by the CLI)",
     "the likelihood that picks the permutation (scipy binom.pmf) is not modelled: any permutation of alleles_to_insert is admissible",
     "--distrust-genotypes is outside the property; --tag HP output is C09's subject and not run here",
+    "the BAM reader reports alleles only at positions of the variants it was asked for (hypothesis of genotype_list_aligned; checked on the real reader in every pipeline run, key reader-contract)",
+    "run_threading returns ploidy haplotypes per block and sub-instance thread sets of one position are disjoint (recorded and checked: c15.writeback `disjoint`)",
+    "the writer model is per sample: another sample only decides whether a record passes the 'phased in any sample' gate, which does not change this sample's GT / phased flag / PS",
+    "get_optimal_assignments with pre-phasing affiliations (ILP) is not modelled: oracle only (results are permutations)",
 ]
 
 F8_KEY = "F8-force-genotypes-neg-inf-fallback"
@@ -530,10 +557,12 @@ def run_vcfio(ctx, case):
     sim.write_vcf(vcf, {"chr1": "A" * 2000}, samples, vcfio_records(case),
                   fmt_defs={"PS": '##FORMAT=<ID=PS,Number=1,Type=Integer,Description="Phase set">'})
     res = {}
+    import io, contextlib
     try:
-        with VcfReader(vcf, only_snvs=case["only_snvs"], phases=True, genotype_likelihoods=False, ploidy=k,
-                       mav=case["mav"]) as vr:
-            tables = list(vr)
+        with contextlib.redirect_stdout(io.StringIO()):     # the reader prints the offending phase before raising PloidyError
+            with VcfReader(vcf, only_snvs=case["only_snvs"], phases=True, genotype_likelihoods=False, ploidy=k,
+                           mav=case["mav"]) as vr:
+                tables = list(vr)
         res["table"] = [[v.position, sorted(g.as_vector())] for t in tables
                         for v, g in zip(t.variants, t.genotypes_of("S"))]
     except VcfNotSortedError:
@@ -1380,6 +1409,8 @@ AFTER = {"force": after_force, "permute": after_exact, "cuts": after_exact, "psi
 
 
 def run(ctx):
+    import logging
+    logging.getLogger("whatshap").setLevel(logging.ERROR)     # in-process runs: no warnings about skipped duplicates etc.
     rng = ctx.rng
     batch = []
 
